@@ -353,7 +353,7 @@ def cqm_field_sweep(ctx, r, base, lines, expect, meta):
     a = Obj('cqm', c['obj'], A, srcA, None, c)
     wa = wire(a)
 
-    def compare(b, tag, want):
+    def compare(b, tag, want, a=a, wa=wa):
         wb = wire(b)
         for x, y, wx, wy in ((a, b, wa, wb), (b, a, wb, wa)):
             for op, f in (('eq', lambda: x.obj.is_equal(y.obj)), ('aeq', lambda: x.obj.is_almost_equal(y.obj, places=7))):
@@ -381,6 +381,25 @@ def cqm_field_sweep(ctx, r, base, lines, expect, meta):
         B, _ = build(srcB)
         ctx.tick('sweep single change: ' + name)
         compare(Obj('cqm', t['obj'], B, srcB, None, t), name, False)
+    # WHICH variable an expression carries: two models with the same variable set whose objective / one lhs carries, besides the
+    # common terms, variable u with bias 0 in one model and variable w (bias 0 or not) in the other — same shapes, both labels
+    # known to both models, so only a two-sided comparison of the term maps tells them apart
+    fresh = [x for x in FRESH if x not in c['vars']][:2]
+    if len(fresh) == 2:
+        u, w = fresh
+        for where in ['obj'] + list(c['cons']):
+            P, Q = ccp(c), ccp(c)
+            for X in (P, Q):
+                X['vars'][u] = 'BINARY'; X['vars'][w] = 'BINARY'
+            eP = P['obj'] if where == 'obj' else P['cons'][where][2]
+            eQ = Q['obj'] if where == 'obj' else Q['cons'][where][2]
+            eP['vars'] = list(eP['vars']) + [(u, 'BINARY')]; eP['lin'][u] = F(0)
+            eQ['vars'] = list(eQ['vars']) + [(w, 'BINARY')]; eQ['lin'][w] = F(r.choice([0, 1, -3]), 4)
+            srcP = realise_cqm(r, P); oP, _ = build(srcP)
+            srcQ = realise_cqm(r, Q); oQ, _ = build(srcQ)
+            xP = Obj('cqm', P['obj'], oP, srcP, None, P); xQ = Obj('cqm', Q['obj'], oQ, srcQ, None, Q)
+            ctx.tick('sweep single change: zero-bias variable swapped for another variable of the model (' + ('objective' if where == 'obj' else 'lhs') + ')')
+            compare(xQ, 'zero-bias variable swapped for another variable of the model', False, a=xP, wa=wire(xP))
     # fields the comparison does not list (weight, penalty, bounds, discrete mark): what the code answers is recorded
     l = r.choice(list(c['cons']))
     extra = [('soft weight', f'_o.constraints[{l!r}].lhs.set_weight(3.0)\n'),
